@@ -207,3 +207,9 @@ func WaitAll2(parked int) { time.Sleep(200 * time.Millisecond) }
 
 // PreemptionBound sets the maximum number of preemptive context switches explored per schedule.
 func PreemptionBound(k int) {}
+
+// timed waits armed by the code under test (time.NewTicker / NewTimer / Reset / After), engine only
+func ArmedWaits() int          { return 0 }
+func ArmInstant(i int) int64   { return 0 }
+func ArmDuration(i int) int64  { return 0 }
+func ArmIsTicker(i int) bool   { return true }
